@@ -379,6 +379,8 @@ struct Case {
     guarded: bool,
     /// the first action lies under this many extra operator levels (`( … -o -false )` repeated)
     deep: usize,
+    /// join the actions with `,` (after a leading test) instead of `-a`
+    comma: bool,
 }
 
 fn case_tree(c: &Case) -> Expr {
@@ -399,8 +401,13 @@ fn case_tree(c: &Case) -> Expr {
     for _ in 0..c.deep {
         tree = Expr::or(tree, Expr::Test(Test::False));
     }
+    if c.comma {
+        // "-true , action1 , action2" (the project documents ',' as AND: a true first clause
+        // lets every action run)
+        tree = Expr::list(Expr::Test(Test::True), tree);
+    }
     for x in it {
-        tree = Expr::and(tree, x);
+        tree = if c.comma { Expr::list(tree, x) } else { Expr::and(tree, x) };
     }
     if c.prefix > 0 {
         let mut pre = Expr::Test(Test::Name("m0".into()));
@@ -418,7 +425,9 @@ fn show(items: &[Action]) -> String {
 }
 
 fn show_case(c: &Case) -> String {
-    if c.deep > 0 {
+    if c.comma {
+        format!("[clauses joined by ',' after -true] {}", show(&c.items))
+    } else if c.deep > 0 {
         format!("[first action under {} operator levels] {}", c.deep, show(&c.items))
     } else if c.prefix == 0 && !c.guarded {
         show(&c.items)
@@ -428,7 +437,7 @@ fn show_case(c: &Case) -> String {
 }
 
 fn check(case: &Case, acc: &mut Acc) {
-    let wit = || json!({"kind": "c16", "actions": case.items, "threads": case.threads, "prefix": case.prefix, "guarded": case.guarded, "deep": case.deep});
+    let wit = || json!({"kind": "c16", "actions": case.items, "threads": case.threads, "prefix": case.prefix, "guarded": case.guarded, "deep": case.deep, "comma": case.comma});
     let tree = case_tree(case);
     let real = conv::expr_to_real(&tree).unwrap();
     let (text, io) = match compile_render(&real, &subject::options(false, None), "/dev") {
@@ -666,7 +675,13 @@ fn cases(tier: Tier) -> Vec<Case> {
                 (Tier::Thorough, 3, 1) => true,
                 _ => false,
             };
-            out.push(Case { items: p.clone(), threads, shuttle, prefix: 0, guarded: false, deep: 0 });
+            out.push(Case { items: p.clone(), threads, shuttle, prefix: 0, guarded: false, deep: 0, comma: false });
+        }
+    }
+    // the same one- and two-action programs with the clauses joined by ',' (model only)
+    for p in &progs {
+        if p.len() <= 2 {
+            out.push(Case { items: p.clone(), threads: 2, shuttle: false, prefix: 0, guarded: false, deep: 0, comma: true });
         }
     }
     // larger identifier numbers and repeated patterns (model only)
@@ -677,10 +692,10 @@ fn cases(tier: Tier) -> Vec<Case> {
                 continue;
             }
             for (a, b) in [(0usize, 1usize), (1, 2), (1, 0), (2, 3), (4, 1)] {
-                out.push(Case { items: vec![fa[a].clone(), fa[b].clone()], threads: 2, shuttle: false, prefix, guarded, deep: 0 });
+                out.push(Case { items: vec![fa[a].clone(), fa[b].clone()], threads: 2, shuttle: false, prefix, guarded, deep: 0, comma: false });
             }
             let pa = plain_actions();
-            out.push(Case { items: vec![pa[0].clone(), pa[1].clone()], threads: 2, shuttle: false, prefix, guarded, deep: 0 });
+            out.push(Case { items: vec![pa[0].clone(), pa[1].clone()], threads: 2, shuttle: false, prefix, guarded, deep: 0, comma: false });
         }
     }
     out
@@ -713,9 +728,9 @@ pub fn run(ctx: &Ctx) -> i32 {
         let mut deep_cases = vec![];
         for deep in [4095usize, 4096, 4097, 5000] {
             for first in [unterminated.clone(), fa[0].clone(), fa[1].clone()] {
-                deep_cases.push(Case { items: vec![first, pa[0].clone()], threads: 2, shuttle: false, prefix: 0, guarded: false, deep });
+                deep_cases.push(Case { items: vec![first, pa[0].clone()], threads: 2, shuttle: false, prefix: 0, guarded: false, deep, comma: false });
             }
-            deep_cases.push(Case { items: vec![pa[0].clone(), pa[1].clone()], threads: 2, shuttle: false, prefix: 0, guarded: false, deep });
+            deep_cases.push(Case { items: vec![pa[0].clone(), pa[1].clone()], threads: 2, shuttle: false, prefix: 0, guarded: false, deep, comma: false });
         }
         let n = deep_cases.len();
         match speclib::trees::on_big_stack(move || {
@@ -755,7 +770,7 @@ pub fn replay(w: &Value) -> Vec<Violation> {
         let threads = w["threads"].as_u64().unwrap_or(2) as usize;
         let prefix = w["prefix"].as_u64().unwrap_or(0) as usize;
         let guarded = w["guarded"].as_bool().unwrap_or(false);
-        let c = Case { shuttle: prefix == 0 && !guarded && (threads * items.len() <= 3 || (threads == 2 && items.len() == 2)), items, threads, prefix, guarded, deep: w["deep"].as_u64().unwrap_or(0) as usize };
+        let c = Case { shuttle: prefix == 0 && !guarded && (threads * items.len() <= 3 || (threads == 2 && items.len() == 2)), items, threads, prefix, guarded, deep: w["deep"].as_u64().unwrap_or(0) as usize, comma: w["comma"].as_bool().unwrap_or(false) };
         check(&c, &mut acc);
     }
     acc.violations.into_values().map(|(v, _)| v).collect()
